@@ -14,7 +14,8 @@ RULE = ("all 10 input types x 5 Neuroglancer output types; values: type limits a
         "strided, read-only, big-endian, memory-mapped (r+ and r) and ndarray-subclass arrays; result compared with the exact nearest-value oracle and the Lean "
         "model; input bytes hashed before/after. Trivial = identical input/output type.")
 ASSUMPTIONS = [
-    "NaN and infinities are outside the property (finite values); a finite float64 beyond the float32 range "
+    "what NaN and infinities THEMSELVES become is outside the property (finite values) - but they must not change the "
+    "result for the finite values next to them; a finite float64 beyond the float32 range "
     "becoming inf is IEEE behaviour and is expected by the oracle",
     "NumPy's int->float32 / float64->float32 casts are correctly rounded (checked against nearestF32)",
 ]
@@ -158,6 +159,28 @@ def run(ctx):
                                 {"in": inT, "out": outT, "mode_a": list(ref_key), "mode_b": list(kk),
                                  "values": [str(v) for v in vals][:40]})
         y = results[ref_key]
+        # neighbours that are not finite must not change what happens to the finite values of the same chunk (a NaN
+        # background is common in statistical maps): same array with NaN / inf entries interleaved
+        if din.kind == "f":
+            for preserve in (True, False):
+                mixed = np.empty(2 * len(a) + 1, dtype=din)
+                mixed[0::2] = np.nan
+                mixed[1::2] = a
+                mixed[2] = np.inf
+                with np.errstate(all="ignore"):
+                    try:
+                        ym = t(mixed, preserve_input=preserve)
+                    except Exception as exc:  # noqa
+                        ctx.oracle_fail(f"conversion of a chunk containing NaN raised {type(exc).__name__}: {exc}",
+                                        {"in": inT, "out": outT, "preserve_input": preserve})
+                        continue
+                ctx.bump("nan_neighbour_arrays")
+                if ym[1::2].tobytes() != y.tobytes():
+                    i = next(i for i in range(len(a)) if ym[1::2][i:i + 1].tobytes() != y[i:i + 1].tobytes())
+                    ctx.oracle_fail("a finite value converts differently when the chunk also contains NaN (range test "
+                                    "defeated by NaN: out-of-range values wrap instead of saturating)",
+                                    {"in": inT, "out": outT, "preserve_input": preserve, "value": str(a[i]),
+                                     "alone": str(y[i]), "next_to_nan": str(ym[1::2][i])})
         items = []
         for v, got in zip(vals, y):
             n, k = exact(v)
